@@ -629,7 +629,8 @@ def run(ctx):
     ctx.count('small_inputs', len(small))
     ctx.pmap(order_task, [(si, rows, ctx.tier) for si, rows in small], fresh=True)
     print('  order: inputs=%d t=%.0fs' % (len(small), ctx.elapsed()), flush=True)
-    ctx.pmap(files_task, [(si, rows, ctx.tier) for si, rows in small[:: (4 if ctx.quick else 2)] if len(statements(schemas_()[si][0], rows)) <= 6])
+    bound = 6 if ctx.quick else 7           # statements per input (see small_inputs)
+    ctx.pmap(files_task, [(si, rows, ctx.tier) for si, rows in small[:: (4 if ctx.quick else 2)] if len(statements(schemas_()[si][0], rows)) <= bound])
     sch, al, cp = schemas_()[2]
     ctx.sample(dict(schema=sch.name, input='\n'.join(statements(sch, next(iter(populations(sch, al, cp, 'quick'))), 0))))
     if small:
@@ -642,7 +643,7 @@ def run(ctx):
     ctx.require(ctx.n('api_chained_cases') >= 100, 'too few API-route populations with a referential identifier (%d)' % ctx.n('api_chained_cases'))
     for si, (schema, _, caps) in enumerate(schemas_()):
         # (every schema that admits an input of exactly the statement bound)
-        if 2 <= 6 - len(schema.classes) - len(schema.assocs) <= sum(caps):
+        if 2 <= bound - len(schema.classes) - len(schema.assocs) <= sum(caps):
             ctx.require(any(i == si for i, _ in small), 'schema %s takes no part in the permutation family' % schema.name)
 
 
